@@ -137,7 +137,7 @@ PROPS = {
         "trusted_base": ["Verus 0.2026.09.13 + Z3 (units R and Q)"],
         "assumptions": [
             "slab contracts and lock erasure as for C09",
-            "unit Q: Command::run_task's verdict is taken as given (havoc contract): Completed/Cancelled mean the task can never run again; QueuingExecutor::run_task is extracted and proved (a completed task frees its slot)",
+            "unit Q: both run_task functions are extracted and proved; what is assumed is polling a task's future (havoc) and that std's Arc/Waker reference counting behaves as counting (the strong count of a poll's waker is 1 + 1 while the Waker lives + 1 per clone user code kept); 'nothing can wake it again' is read as: not woken during the poll and no clone of THIS poll's waker survives (wakers of earlier polls do not count - the code's own reading)",
             "unit Q: a Task taken from the spawn queue is a task the command has not held before (moved, never cloned)",
             "unit W: CLEARED_TIMER_IDS is a ghost set (HashSet::remove assumed), the inner shell-request future does not touch it",
         ],
@@ -153,7 +153,7 @@ PROPS = {
         "trusted_base": ["Verus 0.2026.09.13 + Z3 (unit Q: extracted run_all, process, process_event, resolve, receive, Drain::next, run_until_settled, spawn_new_tasks, is_done, poll_next)"],
         "assumptions": [
             "crossbeam-channel unbounded channels used sequentially are FIFO queues: try_recv returns the head iff non-empty and removes it, send appends, is_empty reads (assumed contracts in verus/Q/unit.rs)",
-            "everything that runs user code (polling a task's future, Command::run_task, App::update, Request::resolve's continuation, join-handle wakers) is HAVOC on every queue restricted to appending to the event/effect queues; QueuingExecutor::run_task itself is extracted and proved",
+            "everything that runs user code (polling a task's future, App::update, Request::resolve's continuation, join-handle wakers) is HAVOC on every queue restricted to appending to the event/effect queues; QueuingExecutor::run_task itself is extracted and proved",
             "sequential reading: between calls no executor slot is empty (QueuingExecutor::idle: no other thread is polling a task), so RunTask::Unavailable does not occur; C08 is not claimed",
             "the executor's task Mutex is erased to exclusive access (rule X4: &self -> &mut self up to Core::process_event/resolve)",
             "CommandSpawner::spawn puts exactly one future on the executor's spawn queue (async forwarding loop not verified)",
